@@ -259,7 +259,14 @@ func caseCLI(t *testing.T, tp *simrt.Tape, c *Ctx) (res Result) {
 			want.add(flags)
 		}
 	}
-	if out != want.text(nw) {
+	inDomain := rc.R <= rc.M && rc.W <= rc.M
+	if !inDomain {
+		// e.g. preset nop256 (limits 800 on a core of 256): what a read or
+		// write limit above the core size means is not defined by the
+		// properties; only the tally's self-consistency is checked
+		res.stat("probe.config-outside-reference-domain", 1)
+	}
+	if inDomain && out != want.text(nw) {
 		what := "tallies differ from the battles the options describe"
 		var a, b, c2, d int
 		if n, _ := fmt.Sscanf(out, "%d %d\n%d %d\n", &a, &b, &c2, &d); nw == 2 && n == 4 {
@@ -284,7 +291,7 @@ func caseCLI(t *testing.T, tp *simrt.Tape, c *Ctx) (res Result) {
 }
 
 func init() {
-	register(&PropSpec{ID: "C17", Engine: "cli", Fn: caseCLI, Quick: 6000, Thorough: 300000, Level: "exploration",
+	register(&PropSpec{ID: "C17", Engine: "cli", Fn: caseCLI, Quick: 60000, Thorough: 1500000, Level: "exploration",
 		Rule: "a case = 1..2 by-construction warriors written as explicit source files + a flag vector over -s -p -c -l -8 -r -F -preset (flag order drawn, core size >= 3*length+1) + either a fixed non-overlapping placement or random placement with the random source served by the simulator's seed; the freshly built cmd/gmars binary is run as a child process; stdout must equal the tallies the reference MARS computes (random placement: at the placements observed in the -debug event stream), exit status 0, and the same seed must reproduce stdout byte for byte; non-trivial = every case; distinct = distinct (arguments, warriors, seed)",
 		Real:   []string{"cmd/gmars binary (flag parsing, file reading, assembler, simulator, tally and printing)", "files on disk"},
 		Stubs:  []string{"math/rand (simrand shim seeded by the simulator, draws logged)"},
